@@ -1029,6 +1029,15 @@ func (g *generator) stringOrIntegerFromEnum(v cue.Value, defVal any, opts []ast.
 		}
 
 		refType := g.namingFunc(g.rootVal, path)
+
+		// a constant reference designates a member of an enum: `#Name & "fixed"`, with
+		// `#Name: string`, is a plain constant.
+		if refPkg == g.schema.Package {
+			if referredObject, found := g.schema.LocateObject(refType); found && !referredObject.Type.IsEnum() {
+				return false, ast.Type{}, nil
+			}
+		}
+
 		return true, ast.NewConstantReferenceType(refPkg, refType, val, opts...), nil
 	}
 
